@@ -300,6 +300,11 @@ fn judge(c: &Ctl, call: &Call, roles: [bool; 3], clock: &ConsensusClock) -> Judg
                 if !pe.by_holder {
                     reasons.push(("confirmed-recovery-proposal-was-not-made-by-its-role", true));
                 }
+                // strict reading of the statement: it is *the recovery role* that confirms its own timed
+                // recovery. Raised only when everything else about the confirmation is in order.
+                if reasons.is_empty() && !roles[R] {
+                    reasons.push(("timed-confirm-by-caller-without-recovery-role", true));
+                }
             }
         },
         Call::CancelRec(p) => {
@@ -1289,7 +1294,7 @@ fn spec(args: &Args) -> Spec {
         "per shard 2 (quick) / as many as fit the time budget (thorough) ledger histories of 3000 transactions each (latest protocol = v2 controller code; Anemone = v1 code; Anemone upgraded to latest mid-history = v1-created state driven by v2 code) with 3 live access controllers at a time over fungible / non-fungible controlled assets, each driven for ~40 calls: every method (create_proof, initiate/cancel/quick-confirm recovery and badge withdraw for both proposers, timed_confirm_recovery, stop_timed_recovery, lock/unlock primary, mint_recovery_badges, lock/withdraw/contribute recovery fee, plus direct role-assignment `set` calls on the controller) called with the natural role, one/two/all roles, the proposer's own role, no badge, a foreign badge or a random subset of 6 role badges; proposals from a pool of 4 rule sets x 3 delays so equal / near-miss / other-proposer contents collide; 1-3 calls per transaction; consensus time advanced by real round changes to the last ms before / exactly at / into / past the timed-recovery threshold; non-trivial = a controller call; distinct = distinct (method, roles held by caller, controller state, model verdict, outcome)",
     )
     .assume("\"the configured delay has elapsed\" is evaluated at the minute resolution of the consensus clock used by the controller: confirm minute >= proposal minute + delay (confirmations inside the rounding slack are counted separately)")
-    .assume("timed_confirm_recovery is publicly callable in the code under test (v1 and v2 auth templates): the monitor requires the recovery role's own, still timed, identical proposal and the elapsed delay, and counts - but does not flag - effective timed confirmations by callers not holding the recovery role")
+    .assume("the statement is read strictly: an effective timed_confirm_recovery by a caller not holding the recovery role is a violation (signature timed-confirm-by-caller-without-recovery-role, raised only when the proposal is the recovery role's own, identical, still timed and the delay has elapsed); the method is Public in the v1 and v2 auth templates, so this is expected as a known finding; such confirmations are also counted")
     .assume("a quick confirmation or badge withdrawal resets the controller (all pending proposals dropped, primary unlocked), as documented; the model follows this")
     .assume("roles are decided by the harness from the badges presented in the transaction and the rule set in force per its own model, not by the engine's auth module")
     .floor("c40:effective_recoveries:quick:primary-proposed", if q { 40 } else { 400 })
